@@ -240,12 +240,12 @@ theorem check_shape (e : PropCk.Ents) : ∃ rest, PropCk.check e = some (PropCk.
         exact ⟨_, by rw [h, List.append_assoc]⟩
 
 /-- the properties checker answers for two Entities with `str` keys, with positions the localized Entity resolves -/
-theorem runProps_ok (fmt : P.Fmt) (hf : fmt ≠ .po) (locale : Option Text) (r l : PEnt)
+theorem runProps_ok (fmt : P.Fmt) (hf : fmt ≠ .po) (cls : Cls) (locale : Option Text) (r l : PEnt)
     (hr : PWf fmt r) (hl : PWf fmt l) (hrj : r.junk = false) (hlj : l.junk = false) :
-    ∃ rs, runProps locale r l = .ok rs ∧ (∀ c ∈ rs, Resolvable l.entry c.pos) ∧
+    ∃ rs, runProps locale r l = .ok rs ∧ (∀ c ∈ rs, Resolvable cls l c.pos) ∧
       ∀ b ∈ runBase l, b ∈ rs := by
-  obtain ⟨rk, hrk⟩ := hr.2 hf
-  obtain ⟨lk, hlk⟩ := hl.2 hf
+  obtain ⟨rk, hrk⟩ := hr.2.1 hf
+  obtain ⟨lk, hlk⟩ := hl.2.1 hf
   generalize hE : ({ locale := locale, refComment := r.comment, refKey := rk, refRaw := r.raw,
                      l10nKey := lk, l10nAll := l.all, l10nRaw := l.raw } : PropCk.Ents) = E
   obtain ⟨rest, hc⟩ := check_shape E
@@ -255,7 +255,7 @@ theorem runProps_ok (fmt : P.Fmt) (hf : fmt ≠ .po) (locale : Option Text) (r l
     simp only [List.mem_map] at hcm
     obtain ⟨f, _, rfl⟩ := hcm
     cases hp : f.pos with
-    | val n => exact Or.inr ⟨⟨n, by simp [ofFinding, hp]⟩, hl.entity hlj⟩
+    | val n => exact Or.inr (Or.inl ⟨⟨n, by simp [ofFinding, hp]⟩, Or.inr ⟨hlj, hl.entity hlj⟩⟩)
     | ent n => exact Or.inl ⟨n, by simp [ofFinding, hp]⟩
   · intro b hb
     simp only [runBase, List.mem_map] at hb
@@ -271,55 +271,57 @@ theorem runProps_ok (fmt : P.Fmt) (hf : fmt ≠ .po) (locale : Option Text) (r l
     · simp only [ofFinding, catText, hlk, keyText]
       rfl
 
-theorem checkerOK_props (fmt : P.Fmt) (hf : fmt ≠ .po) (env : Env) (h : env.ck = .properties) (ref l10n : List PEnt)
-    (hwr : ∀ e ∈ ref, PWf fmt e) (hwl : ∀ e ∈ l10n, PWf fmt e) : CheckerOK env ref l10n := by
+theorem checkerOK_props (fmt : P.Fmt) (hf : fmt ≠ .po) (env : Env) (h : env.ck.kind = .properties) (hc : env.cls = .plain)
+    (ref l10n : List PEnt) (hwr : ∀ e ∈ ref, PWf fmt e) (hwl : ∀ e ∈ l10n, PWf fmt e) : CheckerOK env ref l10n := by
   intro r hr l hl hrj hlj
-  obtain ⟨rs, h1, h2, _⟩ := runProps_ok fmt hf env.file.locale r l (hwr r hr) (hwl l hl) hrj (hlj h)
-  exact ⟨rs, by simp only [runChecker, h, h1], h2⟩
+  obtain ⟨rs, h1, h2, _⟩ := runProps_ok fmt hf env.cls env.ck.locale r l (hwr r hr) (hwl l hl) hrj (hlj (by rw [h]; simp))
+  exact ⟨⟨_, by rw [hc]; rfl⟩, rs, by simp only [runChecker, h, h1], h2⟩
 
 /-- the properties checker, as the linter calls it -/
-theorem lint_checker_props (fmt : P.Fmt) (hf : fmt ≠ .po) (e : PEnt) (hw : PWf fmt e) (hj : e.junk = false) :
-    ∃ rs, runChecker .properties (some referenceLocale) e e = .ok rs ∧ ∀ c ∈ rs, Resolvable e.entry c.pos := by
-  obtain ⟨rs, h1, h2, _⟩ := runProps_ok fmt hf (some referenceLocale) e e hw hw hj hj
-  exact ⟨rs, h1, h2⟩
+theorem lint_checker_props (fmt : P.Fmt) (hf : fmt ≠ .po) (c : CkCtx) (hc : c.kind = .properties) (cls : Cls)
+    (e : PEnt) (hw : PWf fmt e) (hj : e.junk = false) :
+    ∃ rs, runChecker c e e = .ok rs ∧ ∀ r ∈ rs, Resolvable cls e r.pos := by
+  obtain ⟨rs, h1, h2, _⟩ := runProps_ok fmt hf cls c.locale e e hw hw hj hj
+  exact ⟨rs, by simp only [runChecker, hc, h1], h2⟩
 
-/-! ### both checkers of the covered formats -/
+/-! ### the checkers of the formats whose checker needs nothing external (base `Checker`, `PropertiesChecker`) -/
 
-theorem checkerOK_covered (fmt : P.Fmt) (ck : CheckerKind) (hck : checkerOf fmt = some ck) (env : Env) (henv : env.ck = ck)
+/-- ini, inc, po, properties -/
+def Internal (fmt : P.Fmt) : Prop := fmt ≠ .dtd
+
+theorem internal_kind {fmt : P.Fmt} (h : Internal fmt) : checkerOf fmt = .base ∨ (checkerOf fmt = .properties ∧ fmt ≠ .po) := by
+  cases fmt <;> simp [checkerOf, Internal] at h ⊢
+
+theorem internal_cls {fmt : P.Fmt} (h : Internal fmt) : clsOf fmt = .plain := by
+  cases fmt <;> simp [clsOf, Internal] at h ⊢
+
+theorem checkerOK_internal (fmt : P.Fmt) (hi : Internal fmt) (env : Env) (hk : env.ck.kind = checkerOf fmt)
+    (hc : env.cls = clsOf fmt)
     (ref l10n : List PEnt) (hwr : ∀ e ∈ ref, PWf fmt e) (hwl : ∀ e ∈ l10n, PWf fmt e) : CheckerOK env ref l10n := by
-  cases ck with
-  | base => exact checkerOK_base env henv ref l10n
-  | properties =>
-    have hf : fmt ≠ .po := by
-      intro h; subst h; simp [checkerOf] at hck
-    exact checkerOK_props fmt hf env henv ref l10n hwr hwl
+  rw [internal_cls hi] at hc
+  rcases internal_kind hi with h | ⟨h, hf⟩
+  · exact checkerOK_base env (hk.trans h) hc ref l10n
+  · exact checkerOK_props fmt hf env (hk.trans h) hc ref l10n hwr hwl
 
-/-- whatever the checker of a covered format yields contains the results of the base check -/
-theorem base_in_results (fmt : P.Fmt) (ck : CheckerKind) (hck : checkerOf fmt = some ck) (locale : Option Text)
-    (r l : PEnt) (hr : PWf fmt r) (hl : PWf fmt l) (hrj : r.junk = false) (hlj : ck = .properties → l.junk = false)
-    (rs : List CheckRes) (h : runChecker ck locale r l = .ok rs) : ∀ b ∈ runBase l, b ∈ rs := by
-  cases ck with
-  | base =>
-    simp only [runChecker, Except.ok.injEq] at h
+/-- whatever the checker of such a format yields contains the results of the base check -/
+theorem base_in_results (fmt : P.Fmt) (hi : Internal fmt) (c : CkCtx) (hk : c.kind = checkerOf fmt)
+    (r l : PEnt) (hr : PWf fmt r) (hl : PWf fmt l) (hrj : r.junk = false) (hlj : c.kind ≠ .base → l.junk = false)
+    (rs : List CheckRes) (h : runChecker c r l = .ok rs) : ∀ b ∈ runBase l, b ∈ rs := by
+  rcases internal_kind hi with hb | ⟨hp, hf⟩
+  · simp only [runChecker, hk.trans hb, Except.ok.injEq] at h
     subst h
     exact fun b hb => hb
-  | properties =>
-    have hf : fmt ≠ .po := by
-      intro h; subst h; simp [checkerOf] at hck
-    obtain ⟨rs', h1, _, h3⟩ := runProps_ok fmt hf locale r l hr hl hrj (hlj rfl)
-    simp only [runChecker] at h
+  · obtain ⟨rs', h1, _, h3⟩ := runProps_ok fmt hf .plain c.locale r l hr hl hrj (hlj (by rw [hk, hp]; simp))
+    simp only [runChecker, hk.trans hp] at h
     rw [h1] at h
     cases h
     exact h3
 
-theorem lint_checker_covered (fmt : P.Fmt) (ck : CheckerKind) (hck : checkerOf fmt = some ck) (e : PEnt)
-    (hw : PWf fmt e) (hj : e.junk = false) :
-    ∃ rs, runChecker ck (some referenceLocale) e e = .ok rs ∧ ∀ c ∈ rs, Resolvable e.entry c.pos := by
-  cases ck with
-  | base => exact lint_checker_base e
-  | properties =>
-    have hf : fmt ≠ .po := by
-      intro h; subst h; simp [checkerOf] at hck
-    exact lint_checker_props fmt hf e hw hj
+theorem lint_checker_internal (fmt : P.Fmt) (hi : Internal fmt) (c : CkCtx) (hk : c.kind = checkerOf fmt) (cls : Cls)
+    (e : PEnt) (hw : PWf fmt e) (hj : e.junk = false) :
+    ∃ rs, runChecker c e e = .ok rs ∧ ∀ r ∈ rs, Resolvable cls e r.pos := by
+  rcases internal_kind hi with hb | ⟨hp, hf⟩
+  · exact lint_checker_base c (hk.trans hb) cls e
+  · exact lint_checker_props fmt hf c (hk.trans hp) cls e hw hj
 
 end Pipe
